@@ -10,6 +10,7 @@ for sig, f in sorted(prog.functions.items()):
         if "--list" in sys.argv:
             print(sig, f.file, f.line)
         else:
-            f.dump()
-for u, d in prog.errors[:20]:
-    print("ERR", u, d)
+            f.dump(brief='--brief' in sys.argv)
+if "--errors" in sys.argv:
+    for u, d in prog.errors[:40]:
+        print("ERR", u, d)
